@@ -514,7 +514,7 @@ func drawOpnd(t *rapid.T, maxRhs int) opnd {
 
 // dimNM draws a dimension: mostly <= 40, about 10 % up to 150.
 func dimN(t *rapid.T, label string, lo int) int {
-	if rapid.IntRange(0, 9).Draw(t, label+"_big") == 0 {
+	if rapid.IntRange(0, 9).Draw(t, label+"_big") == 9 {
 		return vk.Dim(t, label+"L", 41, 150, 64, 128)
 	}
 	return vk.Dim(t, label, lo, 40, 8, 16, 32)
